@@ -19,6 +19,9 @@ os.makedirs(root, exist_ok=True)
 wt = os.path.join(root, name)
 if not os.path.exists(wt):
     subprocess.check_call(['git', '-C', '/repo', 'worktree', 'add', '--detach', wt, 'HEAD'], stdout=subprocess.DEVNULL)
+import shutil
+if not os.path.exists(os.path.join(wt, 'src/pyhf/_version.py')):
+    shutil.copy('/repo/src/pyhf/_version.py', os.path.join(wt, 'src/pyhf/_version.py'))   # git-ignored build product
 out = os.path.join(root, name + '.out')
 os.makedirs(out, exist_ok=True)
 task = f"""# Task: write one realistic change to scikit-hep/pyhf that breaks a stated semantic property
@@ -28,7 +31,9 @@ other directory outside `{wt}` and `{out}`. pyhf's third-party dependencies are 
 
     cd {wt} && PYTHONPATH={wt}/src /venv/bin/python ...
 
-(the `PYTHONPATH` matters: without it `/venv` imports another checkout). There is no network.
+(the `PYTHONPATH` matters: without it `/venv` imports another checkout). There is no network. Some tests fail on the unchanged
+code for environmental reasons (network, CUDA warnings, DeprecationWarnings turned into errors: add `-W ignore::DeprecationWarning`);
+what matters is that your change does not alter any test outcome.
 
 ## The property (this text is all you are given)
 
